@@ -16,7 +16,8 @@ def check_task_progress(ctx, rule, u, only=None):
     if not {DONE, AGAIN, ASYNC} <= set(vals.values()):
         raise AnalysisBroken('__parsec_task_progress: case labels DONE/AGAIN/ASYNC not found (%s)' % vals)
     n = 0
-    for pi in pathq.all_paths(f, max_paths=50000):
+    EVENTS = {'__parsec_schedule', '__parsec_execute', '__parsec_complete_execution', '__parsec_task_progress'}
+    for pi in pathq.all_paths(f, max_paths=50000, inline=u, inline_names=set(u.funcs()) - EVENTS):
         sws = pi.switches()
         if not sws:
             continue
@@ -24,9 +25,9 @@ def check_task_progress(ctx, rule, u, only=None):
         inner = vals.get(sws[1][1], sws[1][1]) if len(sws) > 1 else None
         prep = [e for e, v in pi.calls() if e.fn is None and e.callee is not None and e.callee.k == 'mem' and e.callee.n == 'prepare_input']
         execs = pi.calls('__parsec_execute')
-        comp = [(e, v) for e, v in pi.calls('__parsec_complete_execution') if e.args[1].s == task]
+        comp = [(e, v) for e, v in pi.calls('__parsec_complete_execution') if e.args[1].subst(v).s == task]
         sched = [(e, v) for e, v in pi.calls('__parsec_schedule')]
-        status = [(e, v) for e, v in pi.events('store') if e.lhs.k == 'mem' and e.lhs.n == 'status' and e.lhs.ch[0].s == task]
+        status = [(e, v) for e, v in pi.events('store') if e.lhs.k == 'mem' and e.lhs.n == 'status' and e.lhs.ch[0].subst(v).s == task]
         rev, rexp = pi.ret()
         loc = (sched or comp or [(rev, None)])[0][0].loc if (sched or comp or rev) else f.where()
         key = '%s/%s' % (outer, inner)
@@ -35,7 +36,7 @@ def check_task_progress(ctx, rule, u, only=None):
             if len(sched) != 1:
                 return False
             e, v = sched[0]
-            return e.args[1].s == task and aff.norm(e.args[2].subst(v)) == aff.Poly.atom(dist) + aff.Poly.const(1) and e.args[0].s == es
+            return e.args[1].subst(v).s == task and aff.norm(e.args[2].subst(v)) == aff.Poly.atom(dist) + aff.Poly.const(1) and e.args[0].subst(v).s == es
         if outer == AGAIN:
             if only in (None, 'prepare_input'):
                 rule.expect(sched_ok() and not comp and not execs and len(prep) == 1, 'progress:prepare-again', loc,
